@@ -15,6 +15,7 @@ ENGINES = [
 ]
 
 HARNESSES = {
+    'C16': [dict(name='c16_constrained', src=['C16_constrained.cpp'], flavour='asan')],
     'C15': [dict(name='c15_informed', src=['C15_informed.cpp'], flavour='asan')],
     'C14': [dict(name='c14_dubins', src=['C14_dubins.cpp'], flavour='asan', cflags=['-O2'])],
     'C18': [dict(name='c18_ptc', src=['C18_ptc.cpp'], flavour='asan')],
@@ -48,6 +49,14 @@ DBE_NOTE = ('Trusted: the choice oracle (hook H1 + sampler-allocator seam) reall
             'g++/ASan build of libompl. Bounded: deviation bound D over the first N choice points, lattice samples, the listed worlds/configurations; silent beyond.')
 
 PROPERTY_META = {
+    'C16': dict(
+        deadline_quick=300, deadline_thorough=1500, engine='E2-HBFS', design_ref='5/C16',
+        technique='exhaustive lattice pairs on the stateless projected space; explicit-state BFS over operation sequences of the stateful atlas / tangent-bundle spaces with the chart list as canonical state; sampler calls under the choice oracle',
+        level_text='5 manifolds (spheres in R^3/R^4, torus, plane, sphere-plane intersection) x 3 (delta, lambda, tolerance) settings. Projected: all ordered pairs of an on-manifold lattice through '
+                   'discreteGeodesic (every state on the manifold, step <= lambda*delta, success => within delta) and interpolate; all sampler modes under products / <= 2 deviations of oracle answers. '
+                   'Atlas and tangent bundle: BFS over all op sequences up to depth 4 (thorough 5) with the chart list as state, same oracles each step. RRT/KPIECE1 on the sphere under all single '
+                   'deviations: every solution vertex on the manifold.',
+        level_note=LPE_NOTE + ' Constraint Jacobians are written to stay finite at their singular points.'),
     'C15': dict(
         deadline_quick=300, deadline_thorough=1500, engine='E3-LPE', design_ref='5/C15',
         technique='exhaustive lattice products on the real ProlateHyperspheroid (directions, affinity, determinant, measure); full products and deviation-bounded streams of oracle answers for every informed-sampler call',
